@@ -380,3 +380,103 @@ Section Rank.
       apply Nat.ltb_lt in Hij. rewrite Hij in Ho. exact Ho.
   Qed.
 End Rank.
+
+(* ====================== rank (Tier O): the executable model's stable sort IS a sorting permutation ====================== *)
+From Knee Require Import OrdLaws.
+From Coq Require Import Sorting.Sorted.
+Section RankStable.
+  Context {N : Num}.
+  Variable P : T N -> Prop.
+  Hypothesis HP : TotalPreorderOn P.
+  Local Open Scope nat_scope.
+
+  Definition kle (p q : nat * T N) : bool := leb (snd p) (snd q).
+  Definition kR (p q : nat * T N) : Prop := kle p q = true.
+  Definition kP (p : nat * T N) : Prop := P (snd p).
+
+  Lemma insert_by_perm {A} (le : A -> A -> bool) (x : A) (l : list A) : Permutation (insert_by le x l) (x :: l).
+  Proof.
+    induction l as [|y l IH]; simpl; [apply Permutation_refl|].
+    destruct (le y x); [|apply Permutation_refl].
+    apply perm_trans with (y :: x :: l); [apply perm_skip; exact IH|apply perm_swap].
+  Qed.
+  Lemma fold_insert_perm {A} (le : A -> A -> bool) (l : list A) : forall acc,
+    Permutation (fold_left (fun acc x => insert_by le x acc) l acc) (acc ++ l).
+  Proof.
+    induction l as [|x l IH]; intros acc; simpl; [rewrite app_nil_r; apply Permutation_refl|].
+    eapply perm_trans; [apply IH|]. apply perm_trans with ((x :: acc) ++ l).
+    - apply Permutation_app_tail. apply insert_by_perm.
+    - simpl. apply Permutation_middle.
+  Qed.
+  Lemma sort_by_perm {A} (le : A -> A -> bool) (l : list A) : Permutation (sort_by le l) l.
+  Proof. unfold sort_by. apply (fold_insert_perm le l []). Qed.
+
+  Lemma insert_sorted (x : nat * T N) (l : list (nat * T N)) :
+    kP x -> Forall kP l -> StronglySorted kR l -> StronglySorted kR (insert_by kle x l).
+  Proof.
+    intros Hx Hl Hs. induction Hs as [|y l Hs IH Hy]; simpl; [repeat constructor|].
+    inversion Hl as [|? ? Py Pl]; subst.
+    destruct (kle y x) eqn:E.
+    - constructor; [apply IH; exact Pl|].
+      apply (Permutation_Forall (Permutation_sym (insert_by_perm kle x l))). constructor; [exact E|exact Hy].
+    - assert (Hxy : kR x y).
+      { destruct (ord_total _ HP (snd x) (snd y) Hx Py) as [H|H]; [exact H|]. unfold kle in E. congruence. }
+      constructor; [constructor; assumption|]. constructor; [exact Hxy|].
+      rewrite Forall_forall in *. intros z Hz. unfold kR, kle in *.
+      apply (ord_trans _ HP (snd x) (snd y) (snd z)); auto. apply Pl. exact Hz.
+  Qed.
+  Lemma fold_insert_sorted (l : list (nat * T N)) : forall acc,
+    Forall kP l -> Forall kP acc -> StronglySorted kR acc ->
+    StronglySorted kR (fold_left (fun acc x => insert_by kle x acc) l acc).
+  Proof.
+    induction l as [|x l IH]; intros acc Hl Ha Hs; simpl; [exact Hs|].
+    inversion Hl as [|? ? Px Pl]; subst. apply IH; [exact Pl| |apply insert_sorted; assumption].
+    apply (Permutation_Forall (Permutation_sym (insert_by_perm kle x acc))). constructor; assumption.
+  Qed.
+  Lemma StronglySorted_nth {A} (R : A -> A -> Prop) (l : list A) d : StronglySorted R l ->
+    forall i j, i < j -> j < length l -> R (nth i l d) (nth j l d).
+  Proof.
+    induction 1 as [|a l Hs IH Ha]; intros i j Hij Hj; [simpl in Hj; lia|].
+    destruct j as [|j]; [lia|]. simpl in Hj. destruct i as [|i]; simpl.
+    - rewrite Forall_forall in Ha. apply Ha. apply nth_In. lia.
+    - apply IH; lia.
+  Qed.
+  Lemma combine_seq_nth (a : list (T N)) : forall s k v,
+    In (k, v) (combine (seq s (length a)) a) -> s <= k /\ k < s + length a /\ nth (k - s) a zero = v.
+  Proof.
+    induction a as [|x a IH]; intros s k v Hin; [contradiction|]. simpl in Hin. destruct Hin as [E|Hin].
+    - inversion E; subst. replace (k - k) with 0 by lia. simpl. repeat split; lia.
+    - destruct (IH (S s) k v Hin) as (H1 & H2 & H3). simpl. repeat split; try lia.
+      replace (k - s) with (S (k - S s)) by lia. exact H3.
+  Qed.
+  Lemma map_fst_combine {A B} (l1 : list A) : forall (l2 : list B), length l1 = length l2 -> map fst (combine l1 l2) = l1.
+  Proof. induction l1 as [|x l1 IH]; intros [|y l2] H; try reflexivity; try discriminate. simpl. f_equal. apply IH. simpl in H. lia. Qed.
+
+  (* the stable argsort of the executable model is one of the permutations the theorems quantify over *)
+  Theorem argsort_stable_sorts (a : list (T N)) : Forall P a -> sorts a (argsort_stable a).
+  Proof.
+    intros Ha. unfold argsort_stable.
+    set (L := combine (seq 0 (length a)) a). set (S := sort_by (fun p q : nat * T N => leb (snd p) (snd q)) L).
+    assert (HpS : Permutation S L) by apply sort_by_perm.
+    assert (HLP : Forall kP L).
+    { apply Forall_forall. intros [k v] Hin. destruct (combine_seq_nth a 0 k v Hin) as (_ & Hk & Hv).
+      unfold kP. simpl. rewrite <- Hv. rewrite Forall_forall in Ha. apply Ha. apply nth_In. lia. }
+    assert (Hsorted : StronglySorted kR S) by (apply (fold_insert_sorted L []); [exact HLP|constructor|constructor]).
+    assert (HlenS : length S = length a).
+    { rewrite (Permutation_length HpS). unfold L. rewrite combine_length, seq_length. apply Nat.min_id. }
+    split.
+    - apply perm_trans with (map fst L); [apply Permutation_map; exact HpS|].
+      unfold L. rewrite map_fst_combine by (rewrite seq_length; reflexivity). apply Permutation_refl.
+    - intros i j Hij Hj.
+      assert (Hkey : forall k, k < length a -> nth (nth k (map fst S) 0) a zero = snd (nth k S (0, zero))).
+      { intros k Hk. change 0 with (fst (0, @zero N)) at 1. rewrite map_nth.
+        assert (Hin : In (nth k S (0, zero)) L) by (apply (Permutation_in _ HpS); apply nth_In; lia).
+        destruct (nth k S (0, zero)) as [kk v] eqn:E. simpl.
+        destruct (combine_seq_nth a 0 kk v Hin) as (_ & _ & Hv). rewrite Nat.sub_0_r in Hv. exact Hv. }
+      rewrite !Hkey by lia.
+      apply (StronglySorted_nth kR S (0, zero) Hsorted i j Hij). lia.
+  Qed.
+  (* hence the model's rank satisfies the predicate the implementation is judged with *)
+  Corollary rank_model_ok (a : list (T N)) : Forall P a -> rank_okb a (rank a) = true.
+  Proof. intros Ha. unfold rank. apply rank_okb_holds. apply argsort_stable_sorts. exact Ha. Qed.
+End RankStable.
